@@ -74,6 +74,7 @@ const char* const KNOWN_DEFECTS[] = {
     "C08-D3-whitespace-only-content-takes-default",      // SchemaValidator::checkContent: whitespace-only simple content is replaced by the default
     "C08-D4-fatal-error-for-invalid-value-with-fixed",   // SchemaValidator::checkContent: compare() throws before validate(); surfaces as fatal error
     "C08-D5-xsi-nil-false-leaks-to-next-element",        // SchemaValidator::validateElement / checkContent: fNilFound not cleared
+    "C08-D6-processcontents-of-first-overlapping-wildcard",  // laxElementValidation ignores the leaf chosen by handleRepetitions
 };
 bool g_skip_known = false;
 static std::string defect_tag(const std::string& caseDesc, const std::string& kind, const std::string& instance, const std::string& err) {
@@ -90,6 +91,7 @@ static bool report_or_skip(Ctx& c, const std::string& tag, std::string& fields) 
     if (tag.empty()) return true;
     if (g_skip_known) { c.count("known_defect:" + tag); return false; }
     fields += ",\"defect\":" + jstr(tag);
+    c.count("tagged:" + tag);
     return true;
 }
 
@@ -176,7 +178,7 @@ static void run_bcase(uint64_t idx, Ctx& c) {
             if ((bool)got[i] != (it.expect == 1)) {
                 std::string kind = it.expect == 1 ? "invalid-instance-accepted" : "valid-instance-rejected";
                 std::string fields = ib + ",\"error\":" + jstr(firstErr[i]) + ",\"files\":" + filesJson;
-                if (report_or_skip(c, defect_tag(bc.desc, kind, it.xml, firstErr[i]), fields) && reported++ < 8) c.violation(kind, fields);
+                if (report_or_skip(c, defect_tag(bc.desc, kind, it.xml, firstErr[i]), fields)) c.violation(kind, fields);
                 continue;
             }
             if (it.expect == 1) {
@@ -212,7 +214,7 @@ static void run_bcase(uint64_t idx, Ctx& c) {
                 c.count("element_text_compared");
                 if (di[i].text != it.text) {
                     std::string fields = ib + ",\"expected\":" + jstr(it.text) + ",\"observed\":" + jstr(di[i].text) + ",\"files\":" + filesJson;
-                    if (report_or_skip(c, defect_tag(bc.desc, "wrong-element-content", it.xml, ""), fields) && reported++ < 8) c.violation("wrong-element-content", fields);
+                    if (report_or_skip(c, defect_tag(bc.desc, "wrong-element-content", it.xml, ""), fields)) c.violation("wrong-element-content", fields);
                 }
             }
             if (it.claimAttrs) {
